@@ -1,10 +1,13 @@
 #!/bin/bash
-# tools/run_seeded.sh [pattern] : run the quick check of each seeded change's property against a worktree with the change; log to seeded/RESULTS.tsv
+# tools/run_seeded.sh [pattern] : run the quick check of each seeded change's property against a worktree with the change;
+# log to seeded/RESULTS.tsv (or $RESULTS): time, property, change, verdict, wall, first VIOLATION reason
 cd /verif
 for d in seeded/${1:-C}*/; do
   n=$(basename $d); P=${n%%-*}
   [ -f $d/patch.diff ] || continue
   t0=$(date +%s)
-  out=$(tools/mutant_test.sh $P $d/patch.diff 2>&1 | tail -1)
-  echo -e "$(date +%H:%M)\t$P\t$n\t$out\t$(( $(date +%s) - t0 ))s" >> ${RESULTS:-seeded/RESULTS.tsv}
+  full=$(tools/mutant_test.sh $P $d/patch.diff 2>&1)
+  out=$(echo "$full" | tail -1)
+  why=$(echo "$full" | grep -m1 '^VIOLATION' | sed 's/^[^#]*# *//' | tr '\t' ' ' | cut -c1-220)
+  echo -e "$(date +%H:%M)\t$P\t$n\t$out\t$(( $(date +%s) - t0 ))s\t$why" >> ${RESULTS:-seeded/RESULTS.tsv}
 done
